@@ -31,9 +31,13 @@ def spec_T(b, W, kind, lo, hi, mn, mx, ext):
         alts.append(R.cat(left_i, R.MARK, b.seq(canon, dot, F), R.MARK, right))
         if lo == 0:
             alts.append(R.cat(b.not_ending_in(D), R.MARK, b.seq(dot, F), R.MARK, right))
+    elif kind == "UnsignedDecimal" and ext:
+        # extensible: a preceding non-digit, non-sign character is required before the integer part; the form
+        # without integer part must not follow a sign or a digit
+        alts.append(R.cat(b.ending_in(R.cs_minus(b.U, R.cs_union(D, signs))), R.MARK, b.seq(canon, dot, F), R.MARK, right))
+        if lo == 0:
+            alts.append(R.cat(b.not_ending_in(R.cs_union(D, signs)), R.MARK, b.seq(dot, F), R.MARK, right))
     elif kind == "UnsignedDecimal":
-        if ext:
-            return None
         left_i = b.not_ending_in(R.cs_union(W, signs))
         alts.append(R.cat(left_i, R.MARK, b.seq(canon, dot, F), R.MARK, right))
         if lo == 0:
@@ -70,6 +74,7 @@ def run(rep, tier):
             cases.append((f"Decimal({args})", "Decimal", lo, hi, mn, mx, False))
             cases.append((f"Decimal({args}, is_extensible=True)", "Decimal", lo, hi, mn, mx, True))
             cases.append((f"UnsignedDecimal({args})", "UnsignedDecimal", lo, hi, mn, mx, False))
+            cases.append((f"UnsignedDecimal({args}, is_extensible=True)", "UnsignedDecimal", lo, hi, mn, mx, True))
             cases.append((f"NegativeDecimal({args})", "NegativeDecimal", lo, hi, mn, mx, False))
     if tier == "quick":
         cases.append(("Decimal(0, 2147483647, 1, None)", "Decimal", 0, 2147483647, 1, None, False))
